@@ -87,7 +87,18 @@ check('C15', 'model_checking',
       'TLA+ model checking (TLC) + state-graph replay + trace validation of derivation histories',
       'DESIGN.md 4/C15')
 
-PENDING = ['C01', 'C02', 'C03', 'C04', 'C05', 'C06', 'C07', 'C08', 'C16', 'C17', 'C18']
+check('C18', 'exploration',
+      'SpyneNull.tla defines the closed case family (body style x how each argument is passed {positional, keyword, both, '
+      'keyword None, absent} x return kind {none, one, two, three, generator, Ignored, Fault, non-Fault}), the expected argument '
+      'packing and the expected result of the direct and of the wire path, and checks their agreement as a law of the table. '
+      'TLC exports the 555 cases; each is run through NullServer and over the wire (hand-written XmlDocument request read back '
+      'with lxml; Soap11 and XmlDocument loopback clients for the wrapped style) on the SAME application object, and TLC '
+      'evaluates the clauses (arguments received, result, direct == wire, exactly one invocation) on every observation. '
+      'No interleaving or history is explored: this is an exhaustive case table, not a state space.',
+      'TLA+ case table evaluated by TLC on paired direct/wire observations',
+      'DESIGN.md 4/C18')
+
+PENDING = ['C01', 'C02', 'C03', 'C04', 'C05', 'C06', 'C07', 'C08', 'C16', 'C17']
 
 def main():
     import importlib
